@@ -12,6 +12,8 @@ def check(run):
     ec.run_family(run, 'C01a-items<=2', 'Q_C01a', 'R_w2N' if not quick else 'R_q4', maxA=2 if quick else 3)
     if quick:
         ec.run_family(run, 'C01a-none-cells', 'Q_C01a', 'R_w2N', maxA=1)
+    ec.run_family(run, 'C01-wide-records', 'Q_C01wide', 'R_wide', maxA=2 if quick else 3, hdrmodes=(False, True))
+    ec.run_family(run, 'C01-wide-except', 'Q_C01widex', 'R_wide', maxA=2, hdrmodes=(False, True))
     ec.run_family(run, 'C01-except', 'Q_C01exc', 'R_w3N', maxA=2 if quick else 3, hdrmodes=(False, True))
     ec.run_family(run, 'C01-join', 'Q_C01join', 'R_w2' if not quick else 'R_q4', recsB='R_w2' if not quick else 'R_q4', maxA=2, maxB=2 if quick else 3)
     ec.run_family(run, 'C01-join-pairs', 'Q_C04pairs', 'R_w2N' if not quick else 'R_w2', recsB='R_w2', maxA=2, maxB=2)
